@@ -162,7 +162,21 @@ func (v *Verifier) evalAxioms() []string {
 		if d.Kind != "axiom" {
 			continue
 		}
+		if _, loaded := v.Pkgs[d.PkgPath]; !loaded {
+			continue // axiom about a package that is not part of this run
+		}
+		nerr := len(t.errs)
 		f := v.closedFormula(t, d)
+		if len(t.errs) > nerr {
+			// an axiom that cannot be resolved in this run (e.g. mentions an unloaded package) is dropped:
+			// fewer assumptions, never more
+			t.errs = t.errs[:nerr]
+			for k := range t.errSet {
+				delete(t.errSet, k)
+			}
+			v.note("axiom " + d.Label + " not applicable in this run (unresolved names); dropped")
+			continue
+		}
 		v.W.addAxiom(d.Label, f.S)
 	}
 	v.axiomVars = t.allVars
